@@ -205,6 +205,33 @@ def check(ctx, pid, targets, mon_codes, known_codes=None, allow_axioms=(), extra
     return ctx.finish("proof")
 
 
+def tower_probe(ctx, pid, mon_codes, fields, cases=3200, why=""):
+    """Used by checks whose own harness drives a component in isolation (C19: TxIndex) although the property is about that
+    component as the tower uses it: runs the sequential tower histories (quick generator) and reports, for property `pid`,
+    a monitor failure of `mon_codes` as a concrete violation (the replay is the tower history) and a disagreement between
+    the tower model and the implementation on one of `fields` as a broken correspondence."""
+    if not ctx.cargo_build(["tower"]):
+        return
+    r, fails = run_harness(ctx, cases, "quick", "mixed", "p" + pid[1:])
+    if r is None:
+        return
+    summ, _ = r
+    ctx.coverage["tower_histories_probed"] = summ["cases"]
+    ctx.coverage["tower_histories_probed_with_reorg"] = summ["reorg_cases"]
+    pf = [parse_fail(f) for f in fails]
+    mine = [f for f in pf if f.get("kind") == "mon" and f.get("prop") in mon_codes]
+    corr = [f for f in pf if f.get("kind") in ("corr", "parse") and (f.get("field") in fields or f.get("kind") == "parse")]
+    for f in mine[:1]:
+        ctx.add_violation(f"{pid}: {why}: monitor of {f.get('prop')} false on a tower history at step {f.get('step')} ({f.get('detail')})",
+                          {"kind": "tower-history", "case": f["case"], "step": f.get("step"), "detail": f.get("detail"),
+                           "replay_with": "./vcheck C04 --replay"},
+                          {"kind": "tower-monitor", "code": f.get("prop"), "detail": f.get("detail", "")})
+    if corr:
+        ctx.broken.append({"kind": "correspondence", "what": "the tower model and the implementation disagree on an observation (" + why + ")",
+                           "field": corr[0].get("field"), "step": corr[0].get("step"), "model": corr[0].get("model", "")[:400],
+                           "impl": corr[0].get("impl", "")[:400], "case": corr[0].get("case", "")[:3000], "count": len(corr)})
+
+
 def replay(ctx, path):
     obj = json.load(open(path))["replay"]
     if obj.get("kind") != "tower-history":
